@@ -2,6 +2,10 @@
 """Regenerates the seeded-changes table of DESIGN.md section 11.6 from seeded/*/meta.json."""
 import json, glob, os, re
 NOTES = {
+ 'C15-r12-v2-temporal-multiply-in-map-order': 'Strengthened: first missed (the flipping value is an exact rounding tie, which C04 rightly admits either way); C15 now repeats every query on one object and on a second one over the whole v2 base/temporal domain and seeded environmental vectors of both families.',
+ 'C16-r12-intern-table-written-on-unknown-name': 'Strengthened: first missed; the stress mix decodes vectors with metric names never seen before in the process.',
+ 'C11-r12-poc-alias-reported-misordered': 'Strengthened: first caught by C20 only; valid vectors with one value code respelled in another upper/lower-case mix were added to the language inputs, and C20 probes every case spelling of every code.',
+ 'C03-r12-pooled-decoder-reset-forgets-ma': 'Strengthened: first missed; before every nil-receiver decode of the score harnesses a rejected vector with all optional metrics defined goes through a nil receiver.',
  'C18-r11-stacked-language-options': 'Strengthened: first missed by both; a share of the reports is now built with several stacked language options of which the last decides. The names functions themselves are untouched by this change, so it is the report check (C17) that sees it.',
  'C19-r10-errs-cause-loses-sentinel': 'Strengthened: first missed; failing readers now fail with ten kinds of error (plain, io sentinels, a custom type, %w chains, errs.New / errs.Wrap with causes and contexts).',
  'C16-r10-v2-score-memo-key-eviction': 'Strengthened: first missed (the shared v2 object had equal base and adjusted impact); the shared objects now include vectors whose levels disagree (requirements that change the adjusted impact, Modified Scope different from Scope) and the lower views are asked Score, Severity and Encode.',
